@@ -143,6 +143,8 @@ func node(form, who string) lime.Node {
 		return lime.Node{Identity: lime.Identity{Name: who, Domain: "example.com"}}
 	case "name":
 		return lime.Node{Identity: lime.Identity{Name: who}}
+	case "dom": // an address without a name part
+		return lime.Node{Identity: lime.Identity{Domain: "example.com"}, Instance: "home"}
 	}
 	return lime.Node{}
 }
@@ -713,6 +715,9 @@ func replayReply(c Case, seed int) []Event {
 		}
 		reply = r
 		ev.To, ev.Frm = whichNode(r.To, frm, pp, to), whichNode(r.From, frm, pp, to)
+		if (r.PP != lime.Node{}) {
+			ev.To = "to+pp" // the reply has a delegation node of its own: its sender is not its origin any more
+		}
 		ev.IDok = eq(r.ID, h.ID)
 		ev.Method = eq(string(r.Method), rc.Method)
 		ev.Status = string(r.Status)
@@ -739,6 +744,9 @@ func replayReply(c Case, seed int) []Event {
 		}
 		reply = n
 		ev.To, ev.Frm = whichNode(n.To, frm, pp, to), whichNode(n.From, frm, pp, to)
+		if (n.PP != lime.Node{}) {
+			ev.To = "to+pp"
+		}
 		ev.IDok = eq(n.ID, h.ID)
 		if rc.Builder == "notification" {
 			ev.Method = eq(string(n.Event), rc.Method)
